@@ -17,6 +17,7 @@ type RepoGenOpts struct {
 	Cutoff                 bool // add a file -> strip -> cat chain and favour comment-only edits of that file
 	SubOuts                bool // sometimes place a genrule's outputs in a sub-directory of the package ("o/<name>.out")
 	Tools                  bool // sometimes declare earlier genrules as tools (built first, hashed, not in $SRCS)
+	OptOuts                bool // sometimes give a genrule an optional output
 }
 
 var repoPkgs = []string{"p", "q", "p/r"}
@@ -157,6 +158,9 @@ func addTarget(t *rapid.T, r *Repo, o RepoGenOpts, name string) *RTarget {
 		}
 		if o.MaxSleepMs > 0 {
 			tg.SleepMs = rapid.IntRange(0, o.MaxSleepMs).Draw(t, "sleep")
+		}
+		if o.OptOuts && rapid.IntRange(0, 2).Draw(t, "optout") == 0 {
+			tg.OptOut = true
 		}
 		if o.SubOuts && rapid.Bool().Draw(t, "subout") {
 			tg.SubOut = true
